@@ -129,10 +129,15 @@ class ServeManifest(RequestHandlerBase):
             if isinstance(pos, int):
                 if pos != options.updateCount:
                     continue
+            elif options.mode != 'live':
+                # a time of day has no meaning in a static presentation
+                continue
             else:
                 tm = options.availabilityStartTime.replace(
                     hour=pos.hour, minute=pos.minute, second=pos.second)
-                tm2 = tm + datetime.timedelta(seconds=options.minimumUpdatePeriod)
+                # minimumUpdatePeriod is None unless it was requested
+                tm2 = tm + datetime.timedelta(seconds=(
+                    options.minimumUpdatePeriod or context['mpd'].minimumUpdatePeriod or 0))
                 if context['mpd'].now < tm or context['mpd'].now > tm2:
                     continue
             if (
